@@ -80,6 +80,11 @@ func NewEventSerializer(parentLogger logger.Logger, schema base.LogSchema, confi
 
 // SerializeRecord serializes log records into streams
 func (packer *eventSerializer) SerializeRecord(record *base.LogRecord) base.LogStream {
+	// encodeRecord doesn't check bounds: grow the buffer first if this record could exceed it, e.g. a record cut at
+	// the listener's line buffer size, or fields enlarged by transforms
+	if maxLength := packer.estimateMaxLength(record); maxLength > len(packer.buffer) {
+		packer.buffer = make([]byte, maxLength)
+	}
 	length := packer.encodeRecord(record, packer.buffer)
 	return packer.buffer[:length]
 }
@@ -88,6 +93,29 @@ func (packer *eventSerializer) SerializeRecord(record *base.LogRecord) base.LogS
 //
 // DO NOT deduplicate or extract the code below - they're required for go inlining to work! (as of v1.15).
 // Check with `disasm` command in go pprof to be sure.
+// estimateMaxLength returns an upper bound of the serialized length of the given record
+func (packer *eventSerializer) estimateMaxLength(record *base.LogRecord) int {
+	const headerLength = 64 // array and map headers, event time, "environment" key
+	const stringHeaderLength = 5
+	total := headerLength
+	fields := record.Fields[0:len(packer.fieldMasks)]
+	for i, value := range fields {
+		if packer.fieldMasks[i] || len(value) == 0 {
+			continue
+		}
+		total += len(packer.serializedFieldKeys[i]) + stringHeaderLength
+		if rewriter := packer.fieldRewriters[i]; rewriter != nil {
+			total += rewriter.MaxFieldLength(value, record)
+		} else {
+			total += len(value)
+		}
+	}
+	for i, loc := range packer.envFieldLocators {
+		total += len(packer.serializedEnvFieldKeys[i]) + stringHeaderLength + len(loc.Get(fields))
+	}
+	return total + 1 // encodeRecord treats a completely filled buffer as overflow
+}
+
 func (packer *eventSerializer) encodeRecord(record *base.LogRecord, buffer []byte) int {
 	// encode log records into chunks of [timestamp, field-map] in msgpack
 	fields := record.Fields[0:len(packer.fieldMasks)] // hide unnamed/reserved fields at the end
